@@ -2,6 +2,7 @@ package main
 
 import (
 	"fmt"
+	"go/constant"
 	"go/token"
 	"go/types"
 	"strings"
@@ -89,13 +90,44 @@ func rulesSweep(c *Ctx, r *Report) {
 		call, _ := st.Val.(*ssa.Call)
 		okCall := call != nil && call.Call.StaticCallee() == keys && len(call.Call.Args) == 1
 		if okCall {
-			_, okCall = call.Call.Args[0].(*ssa.MakeMap)
+			_, isMk := call.Call.Args[0].(*ssa.MakeMap)
+			// the active set kept in a field of the sweep's state: every store into that field, anywhere in the
+			// package, is a map made there (one active set)
+			if !isMk {
+				if ld, ok := call.Call.Args[0].(*ssa.UnOp); ok && ld.Op == token.MUL {
+					if sfa, ok := ld.X.(*ssa.FieldAddr); ok {
+						st0 := structOfPtr(sfa.X.Type())
+						nStores, allMk := 0, true
+						for _, g := range c.moduleFuncs() {
+							if g.Pkg != f.Pkg {
+								continue
+							}
+							instrs(g, func(in2 ssa.Instruction) {
+								s2, ok := in2.(*ssa.Store)
+								if !ok {
+									return
+								}
+								fa2, ok := s2.Addr.(*ssa.FieldAddr)
+								if !ok || fa2.Field != sfa.Field || st0 == nil || !types.Identical(structOfPtr(fa2.X.Type()), st0) {
+									return
+								}
+								nStores++
+								if _, isMap := s2.Val.(*ssa.MakeMap); !isMap {
+									allMk = false
+								}
+							})
+						}
+						isMk = nStores >= 1 && allMk
+					}
+				}
+			}
+			okCall = isMk
 		}
 		r.check(okCall, "SNAPSHOT", where, "piece key list", c.pos(st.Pos()),
 			"the piece's index list is the result of "+fname(keys)+" on the active-set map, taken at this breakpoint",
 			"the piece's index list is not a fresh key list of the active set taken at this breakpoint (it is "+newSymb(f).expr(st.Val).String()+"): a piece can report the set of another position")
 	})
-	r.floor("SNAPSHOT", nSnap, 2, "pieces built in NewIndex (at each breakpoint and after the last event)")
+	r.floor("SNAPSHOT", nSnap, 1, "pieces built in NewIndex (at each breakpoint and after the last event; one site when a flush helper builds them)")
 	// COORD
 	type fld struct {
 		t types.Type
@@ -325,7 +357,7 @@ func rulesStartEnd(c *Ctx, r *Report) {
 		}
 		r.check(guarded, "START<END", where, "event append", c.pos(call.Pos()), "this event is appended only where starts[i] < ends[i] is known", "this event is appended without starts[i] < ends[i] being known: an empty or inverted interval enters the sweep, is removed before it is added, and is then reported for every later position")
 	})
-	r.floor("START<END", n, 2, "event appends (start and end of each interval)")
+	r.floor("START<END", n, 1, "event appends (start and end of each interval; one call when both are appended at once)")
 }
 
 // rulesRoIndex: only NewIndex stores into Index.idx / interval fields.
@@ -444,13 +476,26 @@ func rulesSortCmp(c *Ctx, r *Report) {
 	}
 	s := newSymb(el)
 	// returns keyed by guard
-	type ret struct{ guard, val string }
+	type ret struct {
+		guard, val string
+		sym        *Sym
+	}
 	var rets []ret
 	for _, rc := range returnCases(s, el) {
-		rets = append(rets, ret{rc.guard, s.expr(rc.vals[0]).String()})
+		rets = append(rets, ret{rc.guard, s.expr(rc.vals[0]).String(), s.expr(rc.vals[0])})
 	}
+	// the marks NewIndex gives to start and end events (true/false, or two constants of a small type)
+	startMark, endMark, okMarks := eventMarks(c)
 	okPos, okKind := false, false
 	for _, x := range rets {
+		// the tie-break as a function of the two marks: true for (end, start), false for (start, end)
+		if okMarks && strings.Contains(x.guard, "!(load(P0.f1) != load(P1.f1))") && strings.Contains(x.guard, "(load(P0.f2) != load(P1.f2))") && !strings.Contains(x.guard, "!(load(P0.f2) != load(P1.f2))") {
+			v1, ok1 := evalSymInt(x.sym, map[string]int64{"load(P0.f2)": endMark, "load(P1.f2)": startMark})
+			v2, ok2 := evalSymInt(x.sym, map[string]int64{"load(P0.f2)": startMark, "load(P1.f2)": endMark})
+			if ok1 && ok2 && v1 != 0 && v2 == 0 {
+				okKind = true
+			}
+		}
 		if x.guard == "(load(P0.f1) != load(P1.f1))" && x.val == "(load(P0.f1) < load(P1.f1))" {
 			okPos = true
 		}
@@ -768,4 +813,70 @@ func isEventAppend(in ssa.Instruction) bool {
 	}
 	nm, ok := sl.Elem().(*types.Named)
 	return ok && nm.Obj().Name() == "event"
+}
+
+// eventMarks: the constants NewIndex stores into the third field of the events it builds from starts and from ends.
+func eventMarks(c *Ctx) (start, end int64, ok bool) {
+	ni := c.fn("regions", "NewIndex")
+	if ni == nil || len(ni.Params) < 2 {
+		return 0, 0, false
+	}
+	haveS, haveE := false, false
+	for _, f := range c.stageFuncs(ni) {
+		s := newSymb(f)
+		// composite literals: alloc with stores to fields 1 (position) and 2 (mark)
+		instrs(f, func(in ssa.Instruction) {
+			al, isAl := in.(*ssa.Alloc)
+			if !isAl {
+				return
+			}
+			var posExpr string
+			var mark int64
+			gotMark := false
+			for _, ref := range *al.Referrers() {
+				fa, isFa := ref.(*ssa.FieldAddr)
+				if !isFa {
+					continue
+				}
+				for _, r2 := range *fa.Referrers() {
+					st, isSt := r2.(*ssa.Store)
+					if !isSt || st.Addr != ssa.Value(fa) {
+						continue
+					}
+					switch fa.Field {
+					case 1:
+						posExpr = s.expr(st.Val).String()
+					case 2:
+						if k := constVal(st.Val); k != nil {
+							if k.Kind() == constant.Bool {
+								if constant.BoolVal(k) {
+									mark = 1
+								}
+								gotMark = true
+							} else if n, okn := cInt(k); okn {
+								mark, gotMark = n, true
+							}
+						}
+					}
+				}
+			}
+			if !gotMark || f != ni {
+				return
+			}
+			switch {
+			case strings.Contains(posExpr, "P0["):
+				start, haveS = mark, true
+			case strings.Contains(posExpr, "P1["):
+				end, haveE = mark, true
+			}
+		})
+	}
+	return start, end, haveS && haveE && start != end
+}
+
+func structOfPtr(t types.Type) types.Type {
+	if p, ok := t.Underlying().(*types.Pointer); ok {
+		return p.Elem()
+	}
+	return nil
 }
